@@ -3,6 +3,7 @@ package blockstore
 import (
 	"context"
 	"fmt"
+	"io"
 	"os"
 
 	blocks "github.com/ipfs/go-block-format"
@@ -19,7 +20,8 @@ import (
 var _ Blockstore = (*ReadWrite)(nil)
 
 var (
-	errFinalized = fmt.Errorf("cannot write in a carv2 blockstore after finalize")
+	errFinalized   = fmt.Errorf("cannot write in a carv2 blockstore after finalize")
+	errWriteFailed = fmt.Errorf("cannot write in a carv2 blockstore after a failed write that could not be undone")
 )
 
 // ReadWrite implements a blockstore that stores blocks in CARv2 format.
@@ -40,6 +42,9 @@ type ReadWrite struct {
 	header     carv2.Header
 
 	finalized bool // also protected by ronly.mu
+	// writeFailed is set when a section write failed and its partial bytes could not be removed
+	// from the file; also protected by ronly.mu
+	writeFailed bool
 
 	opts carv2.Options
 }
@@ -203,6 +208,9 @@ func (b *ReadWrite) PutMany(ctx context.Context, blks []blocks.Block) error {
 	if b.finalized {
 		return errFinalized
 	}
+	if b.writeFailed {
+		return errWriteFailed
+	}
 
 	for _, bl := range blks {
 		c := bl.Cid()
@@ -222,11 +230,29 @@ func (b *ReadWrite) PutMany(ctx context.Context, blks []blocks.Block) error {
 
 		n := uint64(b.dataWriter.Position())
 		if err := util.LdWrite(b.dataWriter, c.Bytes(), bl.RawData()); err != nil {
+			b.undoPartialWrite(n)
 			return err
 		}
 		b.idx.InsertNoReplace(c, n)
 	}
 	return nil
+}
+
+// undoPartialWrite restores the data writer and the file to their state before a failed section
+// write that began at payload offset n, so that the partial bytes of that section are neither
+// followed by further sections nor left at the end of the file. If that is not possible the
+// blockstore refuses further writes and finalization rather than produce a corrupt archive.
+func (b *ReadWrite) undoPartialWrite(n uint64) {
+	base := int64(b.header.DataOffset)
+	if b.opts.WriteAsCarV1 {
+		base = 0
+	}
+	if _, err := b.dataWriter.Seek(int64(n), io.SeekStart); err == nil {
+		if err := b.f.Truncate(base + int64(n)); err == nil {
+			return
+		}
+	}
+	b.writeFailed = true
 }
 
 // Discard closes this blockstore without finalizing its header and index.
@@ -269,6 +295,9 @@ func (b *ReadWrite) FinalizeReadOnly() error {
 }
 
 func (b *ReadWrite) finalizeReadOnlyWithoutMutex() error {
+	if b.writeFailed {
+		return errWriteFailed
+	}
 	if b.opts.WriteAsCarV1 {
 		// all blocks are already properly written to the CARv1 inner container and there's
 		// no additional finalization required at the end of the file for a complete v1
